@@ -31,7 +31,11 @@ import (
 	"github.com/New-JAMneration/JAM-Protocol/logger"
 )
 
+// id 0 is the all-zero hash (an ordinary authorizer value: zero-initialised queues feed it into the pools)
 func idHash(k uint64) (o types.OpaqueHash) {
+	if k == 0 {
+		return o
+	}
 	binary.LittleEndian.PutUint64(o[:8], k)
 	for i := 8; i < 32; i++ {
 		o[i] = byte(k*31 + uint64(i)*7 + 3)
@@ -134,6 +138,17 @@ func gen(rng *h.Rng, tier string, emit func(string)) {
 	one := func(C int, api string, nb int, universe int, kind string) {
 		r := rng.Fork()
 		nq := 1 + r.Intn(3)
+		// authorizer ids: 0 (the zero hash) is drawn like any other id; in "zero" cases it dominates (zero-filled queues)
+		zeroHeavy := r.Chance(1, 4)
+		if zeroHeavy {
+			st.Inc("case-zero-hash-heavy")
+		}
+		pick := func() uint64 {
+			if zeroHeavy && r.Chance(1, 2) {
+				return 0
+			}
+			return uint64(r.Intn(universe + 1))
+		}
 		var sb strings.Builder
 		fmt.Fprintf(&sb, "%d %d %s %d %d P", C, O, api, nq, nb)
 		for c := 0; c < C; c++ {
@@ -154,7 +169,7 @@ func gen(rng *h.Rng, tier string, emit func(string)) {
 			}
 			ids := make([]uint64, n)
 			for i := range ids {
-				ids[i] = uint64(1 + r.Intn(universe))
+				ids[i] = pick()
 			}
 			tok := idsTok(ids)
 			if n == 0 && r.Chance(1, 3) {
@@ -166,8 +181,12 @@ func gen(rng *h.Rng, tier string, emit func(string)) {
 		sb.WriteString(" Q")
 		for k := 0; k < nq*C; k++ {
 			ids := make([]uint64, Q)
+			zq := r.Chance(1, 8) // a zero-filled queue
 			for i := range ids {
-				ids[i] = uint64(1 + r.Intn(universe))
+				ids[i] = pick()
+				if zq {
+					ids[i] = 0
+				}
 			}
 			sb.WriteString(" " + idsTok(ids))
 		}
@@ -190,7 +209,10 @@ func gen(rng *h.Rng, tier string, emit func(string)) {
 			}
 			fmt.Fprintf(&sb, " B %d %d %d", slot, r.Intn(nq), ng)
 			for g := 0; g < ng; g++ {
-				a := uint64(1 + r.Intn(universe))
+				a := pick()
+				if a == 0 {
+					st.Inc("guarantee-zero-hash-authorizer")
+				}
 				if r.Chance(1, 6) {
 					a = uint64(1000 + r.Intn(50)) // certainly absent from every pool
 					st.Inc("guarantee-absent-authorizer")
